@@ -571,17 +571,19 @@ func genSpec(r *gen.Rand, n int) {
 			}
 		}
 		// the ParseFloat oracle value for the third ':' field after the first '='
-		pf := "pfnone"
-		if i := strings.Index(s, "="); i >= 0 {
-			if fs := strings.Split(s[i+1:], ":"); len(fs) >= 3 {
-				if f, err := strconv.ParseFloat(fs[2], 64); err != nil {
-					pf = "pferr"
-				} else {
-					pf = fb(f)
+		pfOf := func(s string) string {
+			if i := strings.Index(s, "="); i >= 0 {
+				if fs := strings.Split(s[i+1:], ":"); len(fs) >= 3 {
+					if f, err := strconv.ParseFloat(fs[2], 64); err != nil {
+						return "pferr"
+					} else {
+						return fb(f)
+					}
 				}
 			}
+			return "pfnone"
 		}
-		res := func() (res string) {
+		build := func() (res string) {
 			defer func() {
 				if rec := recover(); rec != nil {
 					res = "panic"
@@ -601,9 +603,20 @@ func genSpec(r *gen.Rand, n int) {
 				return "rebuild-differs " + first + " | " + second
 			}
 			return "ok " + first
-		}()
+		}
+		pf := pfOf(s)
+		res := build()
 		stats["spec:"+strings.SplitN(res, " ", 2)[0]]++
 		emit("spec", "x"+hex.EncodeToString([]byte(s))+"\t"+pf+"\t"+strings.Join(lt, " "), res)
+		// ... and re-configurable: a builder that has already built is given ANOTHER specification; what it builds
+		// from then on is decided by that specification alone (same layers)
+		if r.Intn(3) == 0 {
+			s2 := genSpecString(r)
+			bld.BaseBackoffSpec(s2)
+			res2 := build()
+			stats["spec:respecified"]++
+			emit("spec", "x"+hex.EncodeToString([]byte(s2))+"\t"+pfOf(s2)+"\t"+strings.Join(lt, " "), res2)
+		}
 	}
 }
 
